@@ -36,6 +36,14 @@ Theorem c20_timestamp_order :
 Proof. exact (conj ts_le_refl (conj ts_le_trans (conj ts_le_total ts_le_antisym))). Qed.
 Print Assumptions c20_timestamp_order.
 
+(* the timestamps JADE writes are str(datetime.now()): "YYYY-MM-DD hh:mm:ss" + ".ffffff" unless the
+   microsecond is 0.  On such strings Python's string order IS the chronological order (fields in
+   groups of two decimal digits; year = 100*yh + yl, microsecond = 10000*u1 + 100*u2 + u3). *)
+Theorem c20_timestamp_strings_chronological : forall a b : stamp, stamp_wf a -> stamp_wf b ->
+  str_ltb (render a) (render b) = lex_ltb (stamp_key a) (stamp_key b).
+Proof. exact stamp_order. Qed.
+Print Assumptions c20_timestamp_strings_chronological.
+
 (* consolidating the consolidated summary again is the identity; a second EventsSummary on the same
    directory neither re-consolidates nor changes a file, whatever the logs hold by then *)
 Theorem c20_events_idempotent : forall files,
@@ -134,8 +142,8 @@ Theorem c20_tally_tables :
    build_else = Some ("is_canceled", "num_canceled") /\
    build_summary = [("num_successful", "num_successful"); ("num_failed", "num_failed");
                     ("num_canceled", "num_canceled"); ("num_missing", "len(missing_jobs)")]) /\
-  (show_chain = [("is_successful", "num_successful"); ("is_failed", "num_failed")] /\
-   show_else = Some ("is_canceled", "num_canceled")) /\
+  (show_chain = [("is_successful", "Num successful"); ("is_failed", "Num failed")] /\
+   show_else = Some ("is_canceled", "Num canceled")) /\
   (bytype_chain = [("is_successful", "successful"); ("is_failed", "failed"); ("is_canceled", "canceled")] /\
    bytype_else = None /\
    bytype_keys = [("successful", "successful"); ("failed", "failed"); ("canceled", "canceled")]) /\
@@ -195,3 +203,10 @@ Proof.
   - repeat constructor; cbn; intuition discriminate.
   - intros x. cbn. intuition.
 Qed.
+Example c20_ex_stamp :
+  let a := mkStamp 20 24 3 9 23 59 58 None in
+  let b := mkStamp 20 24 3 9 23 59 58 (Some (0, 0, 1)%N) in
+  let c := mkStamp 20 24 3 10 0 0 0 None in
+  render a = "2024-03-09 23:59:58" /\ render b = "2024-03-09 23:59:58.000001" /\ render c = "2024-03-10 00:00:00" /\
+  str_ltb (render a) (render b) = true /\ str_ltb (render b) (render c) = true /\ str_ltb (render c) (render a) = false.
+Proof. vm_compute. repeat split; reflexivity. Qed.
